@@ -61,6 +61,10 @@ MUTANTS = [
     ("C06", "CheckGfa1PathSteps", "line/group/ordered/to_gfa1.py", "      if not edge.is_dovetail():\n        ok = False\n      elif", "      if False:\n        ok = False\n      elif"),
     ("C06", "CheckGfa1PathSteps", "line/group/ordered/to_gfa1.py", "    for i in range(1, len(cp)-1, 2):", "    for i in range(3, len(cp)-1, 2):"),
     ("C06", "CheckGfa1PathSteps", "line/group/ordered/to_gfa1.py", "              edge.oriented_to == prev.inverted())", "              edge.oriented_to == nxt.inverted())"),
+    ("C05", "RemoveNonfieldBackreferences", "line/common/disconnection.py", "          # cannot be written, it goes with the line (and so do its dependants)\n          ref.disconnect()", "          pass"),
+    ("C05", "RemoveNonfieldBackreferences", "line/common/disconnection.py", "            not ref.items:", "            ref.items:"),
+    ("C05", "RemoveNonfieldBackreferences", "line/common/disconnection.py", "        self._remove_backreference(ref, k)\n        if isinstance(ref, gfapy.line.group.Group)", "        if isinstance(ref, gfapy.line.group.Group)"),
+    ("C05", "RemoveNonfieldBackreferences", "line/common/disconnection.py", "        if isinstance(ref, gfapy.line.group.Group) and ref.is_connected() and \\", "        if isinstance(ref, gfapy.line.group.Group) and \\"),
     ("C10", "TakeBackAssignedIds", "gfa.py", "    self._max_int_name = max_int_name", "    pass"),
     ("C10", "TakeBackAssignedIds", "gfa.py", "    for rt in records:\n      self._records[rt] = records[rt]", "    for rt in records:\n      self._records[rt] = records[\"L\"]"),
     ("C10", "TakeBackAssignedIds", "gfa.py", '      if l.is_connected() and l.get("ID") is not None:', '      if l.get("ID") is not None:'),
